@@ -11,6 +11,7 @@ import PymaVerif.Model.Cauchy
 import PymaVerif.Model.Projector
 import PymaVerif.Model.Validate
 import PymaVerif.Model.Kpm
+import PymaVerif.Model.Taylor
 
 open Lean Pyma Pyma.Dsl Pyma.BlockDiag
 
@@ -442,6 +443,20 @@ def runKpm (j : Json) : Except String String := do
   pure s!"{match r.moments with | some k => toString k | none => "unbound"} {r.warned}"
 end KpmCmd
 
+
+/-! ## `taylor`: the Taylor term of a polynomial entry as `_sympy_to_BlockSeries` computes it -/
+namespace TaylorCmd
+def showRat (q : Rat) : String := s!"{q.num}/{q.den}"
+def runTaylor (j : Json) : Except String String := do
+  let ms ← (← getArr j "monomials").toList.mapM fun e => do
+    pure (← natList (← getArr e "exp"), ← parseRat (← e.getObjValAs? String "coef"))
+  let idxs ← (← getArr j "indices").toList.mapM fun e => match e with
+    | .arr a => natList a
+    | _ => throw "index: array expected"
+  let c := Pyma.Taylor.ofMonomials ms
+  pure (String.intercalate "|" (idxs.map fun n => showRat (Pyma.Taylor.term c n)))
+end TaylorCmd
+
 partial def loop (h : IO.FS.Stream) : IO Unit := do
   let line ← h.getLine
   if line.isEmpty then return ()
@@ -464,6 +479,10 @@ partial def loop (h : IO.FS.Stream) : IO Unit := do
       | .error e => IO.println s!"bad-request {e}"
     | .ok "nof" =>
       match runNof j with
+      | .ok l => IO.println l
+      | .error e => IO.println s!"bad-request {e}"
+    | .ok "taylor" =>
+      match TaylorCmd.runTaylor j with
       | .ok l => IO.println l
       | .error e => IO.println s!"bad-request {e}"
     | .ok "kpm" =>
